@@ -315,6 +315,7 @@ def explore(ctx):
     finp = ''.join(flines).encode('utf8')
     fjobs = []
     fmeta = []
+    fgen = {}
     for i in range(120 if quick else 2500):
         f = c02.gen_filter(rng, 3)
         try:
@@ -323,6 +324,7 @@ def explore(ctx):
             continue
         fjobs.append((canon_q, finp, 'json', ()))
         fmeta.append((i, canon_q, True))
+        fgen[i] = f
         for k in range(3):
             parts = split_strings(canon_q)
             out = []
@@ -351,6 +353,24 @@ def explore(ctx):
                              'payload': {'query': q2, 'canonical_spelling': [m for m in fmeta if m[0] == i][0][1], 'input_lines': flines,
                                          'output': o['out'].decode('utf8', 'replace')[:300], 'canonical_output': ref['out'].decode('utf8', 'replace')[:300],
                                          'stderr': o['err'].decode('utf8', 'replace')[-300:]}})
+    # the same filters written by the extracted Coq filter printer (C02_filter_roundtrip's printer)
+    fpp = []
+    for i, f in fgen.items():
+        flags = [Sym('true'), Sym('false'), Sym('true') if rng.random() < 0.5 else Sym('false'), Sym('false')]
+        try:
+            fpp.append((i, sexp.dumps([Sym('pp'), rng.choice(WS0), rng.choice(WS1), flags, qast.filter_sexp(('and', [f])),
+                                       [qast.stage_sexp(('agg', [(None, ('count', None))], []))]])))
+        except (ValueError, TypeError):
+            pass
+    fppres = aglib.run_model_many([x[1] for x in fpp])
+    fcoq = [(i, r[2]) for (i, _), r in zip(fpp, fppres) if isinstance(r, list) and len(r) == 3 and str(r[1]) == 'wf']
+    fcoq_out = aglib.run_impl_many([(t, finp, 'json', ()) for _i, t in fcoq])
+    for (i, t), o in zip(fcoq, fcoq_out):
+        ref = fcanon.get(i)
+        if ref is not None and (o['rc'] != ref['rc'] or o['out'] != ref['out']):
+            failures.append({'kind': 'spec', 'what': 'a filter spelling written by the printer of the round-trip theorem is read differently by the real parser (rc %s vs %s)' % (ref['rc'], o['rc']),
+                             'payload': {'query': t, 'canonical_spelling': [m for m in fmeta if m[0] == i][0][1], 'input_lines': flines,
+                                         'output': o['out'].decode('utf8', 'replace')[:300], 'canonical_output': ref['out'].decode('utf8', 'replace')[:300]}})
     # aliases versus their expansions
     alias_cases = [('* | apache', '* | parse "* - * [*] \\"* * *\\" * *" as ip, name, timestamp, method, url, protocol, status, contentlength'),
                    ('* | nginx | count by status', None), ('* | testmultioperator', '* | json | count')]
@@ -416,6 +436,6 @@ def explore(ctx):
                 'count vs count as _count, explicit default names for every aggregate/timeslice/total, ["name"] vs bare name, from before/after as, redundant parentheses, whitespace inside parentheses and after `!`, sort by x vs sort by x asc; byte comparison of -o json output; aliases vs expansions; --format vs -o format=, --file vs stdin; the grammar model on the same spellings; '
                 'non-trivial = >= 3 spelling choices exercised' % (len(base), nsp),
         'samples': [{'canonical': base[0][0], 'spelling': meta[1][1]}, {'canonical': base[1][0], 'spelling': meta[nsp + 2][1]}],
-        'spellings': len(jobs) - len(base), 'cli_cases': cli_checked, 'coq_printer_spellings': pp_wf, 'coq_printer_outside_wf': pp_notwf,
+        'spellings': len(jobs) - len(base), 'cli_cases': cli_checked, 'coq_printer_spellings': pp_wf, 'coq_printer_filter_spellings': len(fcoq), 'coq_printer_outside_wf': pp_notwf,
     }
     return {'coverage': cov, 'failures': failures}
